@@ -342,7 +342,7 @@ def make_layer(ctx, qual, period=PERIOD):
                                 if pn in ("self", "input", "op_input", "el_input") or pn in saved or pn.startswith("_"):
                                     continue
                                 v = bound.arguments.get(pn, None)
-                                if isinstance(v, (int, float, np.integer, np.floating)) and not isinstance(v, (bool, np.bool_)) and v != 0 and np.isfinite(v):
+                                if isinstance(v, (int, float, np.integer, np.floating)) and not isinstance(v, (bool, np.bool_)) and v != 0 and (abs(v) < 2 ** 62 if isinstance(v, int) else np.isfinite(v)):
                                     av = type(v)(v * 0.5) if not isinstance(v, (int, np.integer)) else type(v)(v + 1)
                                 elif pn.upper().startswith("BW"):
                                     av = 0.05 * g.fs
